@@ -1885,7 +1885,8 @@ class MainProvider(ResolverMixin, BaseProvider):
         rtn_instpaths = set()
         for inst in instance_store.iter_values():
             for prop in inst.properties.values():
-                if prop.type == 'reference':
+                # Reference properties with NULL value reference nothing
+                if prop.type == 'reference' and prop.value is not None:
                     # Does this prop instance name match target inst name
                     if prop.value == instname:
                         if result_class:
@@ -1991,7 +1992,8 @@ class MainProvider(ResolverMixin, BaseProvider):
         for ref_path in ref_paths:
             inst = self._get_bare_instance(ref_path, instance_store)
             for prop in inst.properties.values():
-                if prop.type == 'reference':
+                # Reference properties with NULL value reference nothing
+                if prop.type == 'reference' and prop.value is not None:
                     if prop.value == inst_name:
                         if assoc_class \
                                 and inst.classname.lower() not in assoc_classes:
